@@ -126,8 +126,17 @@ def run_task(name, build, mode="U"):
         res.status = "undecided"
         res.detail = f"recursion limit in engine: {e}"
     except Exception as e:  # engine error: exit 3, never a verdict
-        res.status = "error"
-        res.detail = f"{type(e).__name__}: {e}\n{traceback.format_exc()[-1500:]}"
+        tb = traceback.extract_tb(e.__traceback__)
+        where = tb[-1].filename if tb else ""
+        if isinstance(e, (KeyError, AttributeError, TypeError, IndexError, ValueError)) and ("/contracts/" in where or "/props/" in where):
+            # the Python code of a CONTRACT tripped over the shape of what the code under it produced (a local renamed, a value of
+            # another kind): the contract no longer fits the code - undecided, like a lost anchor; on the unchanged tree this
+            # cannot happen without the check being reported as broken
+            res.status = "undecided"
+            res.detail = f"contract no longer fits the code: {type(e).__name__}: {e} at {where.rsplit('/', 1)[-1]}:{tb[-1].lineno}"
+        else:
+            res.status = "error"
+            res.detail = f"{type(e).__name__}: {e}\n{traceback.format_exc()[-1500:]}"
     res.wall_s = round(time.time() - t0, 3)
     return res
 
